@@ -203,5 +203,6 @@ def _min_error_dual(
     problem.set_objective("min", picos.trace(y_var))
     solution = problem.solve(solver=solver)
 
-    measurements = [problem.get_constraint(k).dual for k in range(len(vectors))]
+    # The dual variable of the k-th constraint is the transpose of the k-th measurement operator.
+    measurements = [problem.get_constraint(k).dual.T for k in range(len(vectors))]
     return solution.value, measurements
